@@ -284,8 +284,16 @@ def generate(tier):
     for kind, decl, mk in (('sn', 'pub struct Ty<T, U> { #[educe(Into(u8))] pub a: T, #[educe(Into(u16))] pub b: U }', 'Ty { a: %s, b: %s }'),
                            ('st', 'pub struct Ty<T, U>(#[educe(Into(u8))] pub T, #[educe(Into(u16))] pub U);', 'Ty(%s, %s)'),
                            ('en', 'pub enum Ty<T, U> { A(#[educe(Into(u8))] T, #[educe(Into(u16))] U), B { #[educe(Into(u16))] x: U, #[educe(Into(u8))] y: T } }', 'Ty::A(%s, %s)')):
-        for order in (('u8', 'u16'), ('u16', 'u8')):
-            src = '#[derive(Educe)]\n#[educe(%s)]\n%s\n' % (', '.join('Into(%s)' % t for t in order), decl)
+        for order in (('u8', 'u16'), ('u16', 'u8'), ('u8', 'u16', 'wf'), ('u16', 'u8', 'wf')):
+            if order[-1] == 'wf':       # the item has a where clause of its own that every impl has to repeat
+                order = order[:2]
+                wf = ' where T: Wf, U: Wf' + ('' if kind == 'st' else ' ')
+                decl_ = (decl.replace(' {', wf + '{', 1) if kind != 'st' else decl.replace(';', wf + ';'))
+                src = 'pub trait Wf {}\nimpl Wf for Inh {}\nimpl Wf for No {}\n'
+                kind_ = kind + '-where'
+            else:
+                src, decl_, kind_ = '', decl, kind
+            src += '#[derive(Educe)]\n#[educe(%s)]\n%s\n' % (', '.join('Into(%s)' % t for t in order), decl_)
             src += ('pub fn check(r: &mut Rep) {\n'
                     '    r.ck(probe!(Ty<Inh, No>: Into<u8>), 0, &|| "Into<u8> needs only the field designated for u8 to be convertible".to_string());\n'
                     '    r.ck(probe!(Ty<No, Inh>: Into<u16>), 1, &|| "Into<u16> needs only the field designated for u16 to be convertible".to_string());\n'
@@ -293,7 +301,7 @@ def generate(tier):
                     '    r.ck(!probe!(Ty<No, Inh>: Into<u8>), 3, &|| "Into<u8> applies although its field is not convertible".to_string());\n'
                     '    { let y: u8 = (%s).into(); r.ck(y == 5, 4, &|| format!("into::<u8>() gave {}", y)); }\n'
                     '    { let y: u16 = (%s).into(); r.ck(y == 6, 5, &|| format!("into::<u16>() gave {}", y)); }\n}\n') % (mk % ('inh(5)', 'No'), mk % ('No', 'inh(6)'))
-            cases.append(Case('C10|generic-per-target|%s|%s' % (kind, '+'.join(order)), src, {'generics': 'T for u8, U for u16'}, expect='accept', run=True, depth=2))
+            cases.append(Case('C10|generic-per-target|%s|%s' % (kind_, '+'.join(order)), src, {'generics': 'T for u8, U for u16'}, expect='accept', run=True, depth=2))
     # field names that differ by the prefixes the templates use for their bindings (x, _x, __x, ...), and raw identifiers
     from .common import underscorify, rawify
     named = [x for x in cases if ':n' in x.key or '|n' in x.key]
